@@ -637,6 +637,8 @@ class PyEval:
             return ("bound", base, n.attr)
         if isinstance(base, tuple) and base and base[0] == "external":
             return ("external", base[1] + "." + n.attr)
+        if isinstance(base, range) and n.attr in ("start", "stop", "step"):
+            return getattr(base, n.attr)
         raise NotConst(f"attribute .{n.attr} on {type(base).__name__} at {self.mod.rel}:{n.lineno}")
 
     def e_Subscript(self, n: ast.Subscript) -> Any:
